@@ -138,7 +138,7 @@ theorem copyRange_agree {r : Bytes} {len st en : Nat} (hlen : len < u64Mod)
 
 /-- `upload_part_copy` comparable: part number within 1..10000 [else fs:part-number-not-validated], the upload exists for this
     bucket and key [fs:unknown-upload-code, fs:upload-not-bound-to-key], source names agree (a missing source bucket is
-    inside since 391a940: `NoSuchBucket` on both sides), the source is not a directory and its size fits `i64`; a
+    inside since cc244fc: `NoSuchBucket` on both sides), the source is not a directory and its size fits `i64`; a
     `x-amz-copy-source-range`, if given, is one the store accepts: `bytes=first-last` inside the source
     [else fs:part-copy-range-unchecked] -/
 def UploadPartCopyOk (s : State) (b k : Bytes) (u : UploadRef) (n : Int) (sb sk : Bytes) (range : Option Bytes) : Prop :=
